@@ -41,6 +41,8 @@ type step struct {
 	node *ce.Node
 	mode blockchain.FlushMode
 	flag bool
+	// cache: utxo cache size after a reopen (0 = as before, otherwise size+1)
+	cache uint64
 }
 
 func (s step) String() string {
@@ -48,9 +50,23 @@ func (s step) String() string {
 	case "flush":
 		return fmt.Sprintf("flush(%d)", s.mode)
 	case "reopen":
+		if s.cache != 0 {
+			return fmt.Sprintf("reopen(flush=%v,cache=%d)", s.flag, s.cache-1)
+		}
 		return fmt.Sprintf("reopen(flush=%v)", s.flag)
 	}
 	return fmt.Sprintf("%s(node%d)", s.kind, s.node.Idx)
+}
+
+// genReopen draws a restart: with or without the final flush, with the same
+// utxo cache size or another one (a node may come back with another -utxocache
+// setting: a small one makes the recovery replay flush block by block).
+func genReopen(t *rapid.T, flush bool) step {
+	st := step{kind: "reopen", flag: flush}
+	if rapid.IntRange(0, 2).Draw(t, "otherCache") == 0 {
+		st.cache = 1 + rapid.SampledFrom([]uint64{0, 1, 1 << 10, 64 << 10, 100 << 20}).Draw(t, "cacheAfterReopen")
+	}
+	return st
 }
 
 func genSteps(t *rapid.T, tr *ce.Tree) []step {
@@ -65,7 +81,11 @@ func genSteps(t *rapid.T, tr *ce.Tree) []step {
 		case 0, 1:
 			steps = append(steps, step{kind: "flush", mode: rapid.SampledFrom([]blockchain.FlushMode{blockchain.FlushRequired, blockchain.FlushRequired, blockchain.FlushPeriodic, blockchain.FlushIfNeeded}).Draw(t, "mode")})
 		case 2:
-			steps = append(steps, step{kind: "reopen", flag: rapid.Bool().Draw(t, "flushOnClose")})
+			steps = append(steps, genReopen(t, rapid.Bool().Draw(t, "flushOnClose")))
+			if !steps[len(steps)-1].flag && rapid.IntRange(0, 2).Draw(t, "crashAgain") == 0 {
+				// the process dies again right after the recovery
+				steps = append(steps, genReopen(t, false))
+			}
 		case 3:
 			if len(delivered) > 0 {
 				x := delivered[rapid.IntRange(0, len(delivered)-1).Draw(t, "manualNode")]
@@ -83,7 +103,10 @@ func genSteps(t *rapid.T, tr *ce.Tree) []step {
 			}
 			steps = append(steps, step{kind: "invalidate", node: x}, step{kind: "reconsider", node: x})
 			if rapid.Bool().Draw(t, "comboReopen") {
-				steps = append(steps, step{kind: "reopen", flag: false})
+				steps = append(steps, genReopen(t, false))
+				if rapid.IntRange(0, 2).Draw(t, "comboCrashAgain") == 0 {
+					steps = append(steps, genReopen(t, false))
+				}
 			}
 		}
 	}
@@ -94,7 +117,7 @@ func genSteps(t *rapid.T, tr *ce.Tree) []step {
 		case 0:
 			steps = append(steps, step{kind: "flush", mode: blockchain.FlushRequired})
 		case 1:
-			steps = append(steps, step{kind: "reopen", flag: rapid.Bool().Draw(t, "flushOnClose")})
+			steps = append(steps, genReopen(t, rapid.Bool().Draw(t, "flushOnClose")))
 		default:
 			x := delivered[rapid.IntRange(0, len(delivered)-1).Draw(t, "manualNode")]
 			steps = append(steps, step{kind: rapid.SampledFrom([]string{"invalidate", "reconsider"}).Draw(t, "manual"), node: x})
@@ -159,6 +182,10 @@ func runCase(t *rapid.T, tr *ce.Tree, steps []step, cache uint64) {
 				t.Fatalf("step %d %s: %v\n%s", i, s, err, hist(i))
 			}
 		case "reopen":
+			if s.cache != 0 {
+				env.Opt.UtxoCacheMaxSize = s.cache - 1
+				ev_["reopen-other-cache"] = true
+			}
 			if err := env.Reopen(s.flag); err != nil {
 				t.Fatalf("step %d %s: re-open failed: %v\n%s", i, s, err, hist(i))
 			}
@@ -281,6 +308,9 @@ func runCase(t *rapid.T, tr *ce.Tree, steps []step, cache uint64) {
 				t.Fatalf("step %d %s (after flush): %v\n%s", i, s, err, hist(i))
 			}
 		}
+	}
+	if ev_["reopen-other-cache"] {
+		recFold.Count("reopen-other-cache", 1)
 	}
 	cl := "plain"
 	for _, k := range []string{"recreated-txid", "spend-after-flush", "deep-reorg", "reopen-unflushed", "create-spend-unflushed"} {
